@@ -60,6 +60,120 @@ _NEAREST_ERR = """            if index == 0 {
             }
 """
 
+_PREFIX_MATCH = """            match sgr_color_type {
+                SGRColorType::Foreground => chunks.push(b"38"),
+                SGRColorType::Background => chunks.push(b"48"),
+                SGRColorType::Underline => chunks.push(b"58"),
+            }
+"""
+_NEAREST_FN = """fn nearest(v: f32, vs: &[f32]) -> usize {
+    match vs.binary_search_by(|c| c.partial_cmp(&v).unwrap()) {
+        Ok(index) => index,
+        Err(index) => {
+""" + _NEAREST_ERR + """        }
+    }
+}
+"""
+_NEAREST_EARLY_RETURN = """fn nearest(v: f32, vs: &[f32]) -> usize {
+    let index = match vs.binary_search_by(|c| c.partial_cmp(&v).unwrap()) {
+        Ok(index) => return index,
+        Err(index) => index,
+    };
+    if index == 0 {
+        return 0;
+    }
+    if vs.len() <= index {
+        return vs.len() - 1;
+    }
+    if (vs[index] - v) > (v - vs[index - 1]) {
+        index - 1
+    } else {
+        index
+    }
+}
+"""
+_NEAREST_PARTITION_POINT = """fn nearest(v: f32, vs: &[f32]) -> usize {
+    assert!(!v.is_nan());
+    let index = vs.partition_point(|c| *c < v);
+    if index < vs.len() && vs[index] == v {
+        return index;
+    }
+    let below = index.checked_sub(1);
+    match below {
+        None => 0,
+        Some(below) if index == vs.len() => below,
+        Some(below) => {
+            if v - vs[below] < vs[index] - v {
+                below
+            } else {
+                index
+            }
+        }
+    }
+}
+"""
+_GRAY_ARM = """            let luma = color.luma();
+            let index = match nearest(luma, &[0.0, 0.33, 0.66, 1.0]) {
+                0 => 30,
+                1 => 90,
+                2 => 37,
+                _ => 97,
+            };
+            let index = match sgr_color_type {
+                SGRColorType::Foreground => index,
+                SGRColorType::Background => index + 10,
+                SGRColorType::Underline => return Ok(()),
+            };
+            write!(chunks, "{}", index)?;
+            chunks.mark();
+"""
+_GRAY_ARM_TABLE = """            if let SGRColorType::Underline = sgr_color_type {
+                return Ok(());
+            }
+            const GRAY_LEVELS: &[f32] = &[0.0, 0.33, 0.66, 1.0];
+            let level = nearest(color.luma(), GRAY_LEVELS);
+            let mut code = [30, 90, 37, 97][level];
+            if let SGRColorType::Background = sgr_color_type {
+                code += 10;
+            }
+            write!(chunks, "{code}")?;
+            chunks.mark();
+"""
+_DEC_INDEXED = """            let mut index = number_decode(cmds.next()?)?;
+            if index < 16 {
+                Some(COLORS[index])
+            } else if index < 232 {
+                index -= 16;
+                let ri = index / 36;
+                index -= ri * 36;
+                let gi = index / 6;
+                index -= gi * 6;
+                let bi = index;
+                Some(RGBA::new(CUBE[ri], CUBE[gi], CUBE[bi], 255))
+            } else if index < 256 {
+                let v = GREYS[index - 232];
+                Some(RGBA::new(v, v, v, 255))
+            } else {
+                None
+            }
+"""
+_DEC_INDEXED_MATCH = """            match number_decode(cmds.next()?)? {
+                index @ 0..=15 => Some(COLORS[index]),
+                index @ 16..=231 => {
+                    let cube_index = index - 16;
+                    let ri = cube_index / 36;
+                    let gi = cube_index % 36 / 6;
+                    let bi = cube_index % 6;
+                    Some(RGBA::new(CUBE[ri], CUBE[gi], CUBE[bi], 255))
+                }
+                index @ 232..=255 => {
+                    let v = GREYS[index - 232];
+                    Some(RGBA::new(v, v, v, 255))
+                }
+                _ => None,
+            }
+"""
+
 MUTANTS = [
     # ---- (a) tables
     {"id": "C20-cube-entry-changed", "prop": "C20", "expect": "TABLE-LINEAR/encoder::CUBE/entry-1",
@@ -85,7 +199,7 @@ MUTANTS = [
      "edits": [(E, '            chunks.push(b"5");\n', '            chunks.push(b"2");\n')]},
     {"id": "C20-decoder-green-div-5", "prop": "C20", "expect": "INDEX-LAYOUT/decoder::sgr_color/inverse-layout",
      "edits": [(D, "let gi = index / 6;", "let gi = index / 5;")]},
-    {"id": "C20-decoder-grey-threshold", "prop": "C20", "expect": "INDEX-LAYOUT/decoder::sgr_color/thresholds",
+    {"id": "C20-decoder-grey-threshold", "prop": "C20", "expect": "INDEX-LAYOUT/decoder::sgr_color/inverse-layout",
      "edits": [(D, "} else if index < 232 {", "} else if index < 231 {")]},
     # ---- (c) nearest
     {"id": "C20-nearest-lower-neighbour-only", "prop": "C20", "expect": "NEAREST/encoder::nearest/interior",
@@ -147,4 +261,64 @@ MUTANTS = [
                 "                SGRColorType::Underline => return Ok(()),\n                SGRColorType::Background => 10 + index,\n                SGRColorType::Foreground => index,\n")]},
     {"id": "C20-benign-decoder-hex-to-decimal", "prop": "C20", "benign": True,
      "edits": [(D, "[0x00, 0x5f, 0x87, 0xaf, 0xd7, 0xff]", "[0, 95, 135, 175, 215, 255]")]},
+    # ---- benign: refactoring shapes the value-based rules see through (helper extraction, named constants, hoisting, idiom changes)
+    {"id": "C20-benign-prefix-helper-method", "prop": "C20", "benign": True,
+     "edits": [(E, "            let [r, g, b] = color.to_rgb();\n" + _PREFIX_MATCH, "            let [r, g, b] = color.to_rgb();\n            chunks.push(sgr_color_type.extended_code());\n"),
+               (E, _PREFIX_MATCH + '            chunks.push(b"5");\n', '            chunks.push(sgr_color_type.extended_code());\n            chunks.push(b"5");\n'),
+               (E, "/// Encode color as SGR sequence\n", "impl SGRColorType {\n    fn extended_code(&self) -> &'static [u8] {\n        match self {\n            SGRColorType::Underline => b\"58\",\n"
+                   "            SGRColorType::Foreground => b\"38\",\n            SGRColorType::Background => b\"48\",\n        }\n    }\n}\n\n/// Encode color as SGR sequence\n")]},
+    {"id": "C20-benign-named-offsets-horner", "prop": "C20", "benign": True,
+     "edits": [(E, "                232 + g_index\n", "                GREYS_OFFSET + g_index\n"),
+               (E, "16 + 36 * c_red + 6 * c_green + c_blue", "CUBE_OFFSET + (c_red * 6 + c_green) * 6 + c_blue"),
+               (E, "fn nearest(v: f32, vs: &[f32]) -> usize {", "const CUBE_OFFSET: usize = 16;\nconst GREYS_OFFSET: usize = 232;\n\nfn nearest(v: f32, vs: &[f32]) -> usize {")]},
+    {"id": "C20-benign-debug-asserts-and-reserve", "prop": "C20", "benign": True,
+     "edits": [(E, "            };\n\n" + _PREFIX_MATCH + '            chunks.push(b"5");\n', "            };\n            debug_assert!((16..256).contains(&index), \"palette index {}\", index);\n\n" + _PREFIX_MATCH + '            chunks.push(b"5");\n'),
+               (E, "fn nearest(v: f32, vs: &[f32]) -> usize {\n", "fn nearest(v: f32, vs: &[f32]) -> usize {\n    debug_assert!(vs.windows(2).all(|pair| pair[0] < pair[1]));\n"),
+               (E, "    match depth {\n        ColorDepth::TrueColor => {", "    chunks.buffer.reserve(12);\n    chunks.offsets.reserve(5);\n    match depth {\n        ColorDepth::TrueColor => {")]},
+    {"id": "C20-benign-hoisted-grey-level-and-distances", "prop": "C20", "benign": True,
+     "edits": [(E, "let g_color = LinColor::new(GREYS[g_index], GREYS[g_index], GREYS[g_index], 1.0);", "let g_level = GREYS[g_index];\n            let g_color = LinColor::new(g_level, g_level, g_level, 1.0);"),
+               (E, "            let index = if color.distance(g_color) < color.distance(c_color) {", "            let (d_grey, d_cube) = (color.distance(g_color), color.distance(c_color));\n            let index = if d_cube > d_grey {")]},
+    {"id": "C20-benign-decision-by-partial-cmp", "prop": "C20", "benign": True,
+     "edits": [(E, "            let index = if color.distance(g_color) < color.distance(c_color) {\n                232 + g_index\n            } else {\n                16 + 36 * c_red + 6 * c_green + c_blue\n            };",
+                "            let index = match color.distance(g_color).partial_cmp(&color.distance(c_color)) {\n                Some(Ordering::Less) => 232 + g_index,\n                _ => 16 + 36 * c_red + 6 * c_green + c_blue,\n            };")]},
+    {"id": "C20-benign-cube-indices-by-map", "prop": "C20", "benign": True,
+     "edits": [(E, "            let c_red = nearest(r, CUBE);\n            let c_green = nearest(g, CUBE);\n            let c_blue = nearest(b, CUBE);\n",
+                "            let [c_red, c_green, c_blue] = [r, g, b].map(|channel| nearest(channel, CUBE));\n")]},
+    {"id": "C20-benign-nearest-early-returns", "prop": "C20", "benign": True, "edits": [(E, _NEAREST_FN, _NEAREST_EARLY_RETURN)]},
+    {"id": "C20-benign-nearest-partition-point", "prop": "C20", "benign": True, "edits": [(E, _NEAREST_FN, _NEAREST_PARTITION_POINT)]},
+    {"id": "C20-benign-comparator-mirrored", "prop": "C20", "benign": True,
+     "edits": [(E, "|c| c.partial_cmp(&v).unwrap()", "|entry| v.partial_cmp(entry).unwrap().reverse()")]},
+    {"id": "C20-benign-gray-table-lookup", "prop": "C20", "benign": True, "edits": [(E, _GRAY_ARM, _GRAY_ARM_TABLE)]},
+    {"id": "C20-benign-truecolor-unrolled", "prop": "C20", "benign": True,
+     "edits": [(E, '            for c in [r, g, b] {\n                write!(chunks, "{}", c)?;\n                chunks.mark();\n            }\n',
+                '            write!(chunks, "{r}")?;\n            chunks.mark();\n            write!(chunks, "{}", g)?;\n            chunks.mark();\n            write!(chunks, "{0}", b)?;\n            chunks.mark();\n')]},
+    {"id": "C20-benign-truecolor-array-loop", "prop": "C20", "benign": True,
+     "edits": [(E, "            let [r, g, b] = color.to_rgb();\n", "            let components = color.to_rgb();\n"),
+               (E, "            for c in [r, g, b] {\n                write!(chunks, \"{}\", c)?;", "            for component in components {\n                write!(chunks, \"{}\", component)?;")]},
+    {"id": "C20-benign-decoder-match-ranges", "prop": "C20", "benign": True, "edits": [(D, _DEC_INDEXED, _DEC_INDEXED_MATCH)]},
+    # ---- breaking changes hidden in refactored shapes
+    {"id": "C20-grey-input-shortcut", "prop": "C20", "expect": "INDEX-LAYOUT/encoder::color_sgr_encode/palette-argmin",
+     "edits": [(E, "let index = if color.distance(g_color) < color.distance(c_color) {", "let index = if (r == g && g == b) || color.distance(g_color) < color.distance(c_color) {")]},
+    {"id": "C20-helper-wrong-underline-code", "prop": "C20", "expect": "TRUECOLOR/encoder::color_sgr_encode/prefix-Underline",
+     "edits": [(E, "            let [r, g, b] = color.to_rgb();\n" + _PREFIX_MATCH, "            let [r, g, b] = color.to_rgb();\n            chunks.push(sgr_color_type.extended_code());\n"),
+               (E, "/// Encode color as SGR sequence\n", "impl SGRColorType {\n    fn extended_code(&self) -> &'static [u8] {\n        match self {\n            SGRColorType::Underline => b\"59\",\n"
+                   "            SGRColorType::Foreground => b\"38\",\n            SGRColorType::Background => b\"48\",\n        }\n    }\n}\n\n/// Encode color as SGR sequence\n")]},
+    {"id": "C20-horner-wrong-factor", "prop": "C20", "expect": "INDEX-LAYOUT/encoder::color_sgr_encode/index-cube",
+     "edits": [(E, "16 + 36 * c_red + 6 * c_green + c_blue", "16 + (c_red * 6 + c_green) * 5 + c_blue")]},
+    {"id": "C20-named-offset-wrong", "prop": "C20", "expect": "INDEX-LAYOUT/encoder::color_sgr_encode/index-grey",
+     "edits": [(E, "                232 + g_index\n", "                GREYS_OFFSET + g_index\n"),
+               (E, "fn nearest(v: f32, vs: &[f32]) -> usize {", "const GREYS_OFFSET: usize = 231;\n\nfn nearest(v: f32, vs: &[f32]) -> usize {")]},
+    {"id": "C20-hoisted-level-from-wrong-table", "prop": "C20", "expect": "GREY-VS-CUBE/encoder::color_sgr_encode/candidate",
+     "edits": [(E, "let g_color = LinColor::new(GREYS[g_index], GREYS[g_index], GREYS[g_index], 1.0);", "let g_level = GREYS[g_index.min(CUBE.len() - 1)];\n            let g_color = LinColor::new(g_level, g_level, g_level, 1.0);")]},
+    {"id": "C20-partition-point-wrong-side", "prop": "C20", "expect": "NEAREST/encoder::nearest/",
+     "edits": [(E, _NEAREST_FN, _NEAREST_PARTITION_POINT.replace("if v - vs[below] < vs[index] - v {", "if v - vs[below] > vs[index] - v {"))]},
+]
+
+# ---- further refactorings: the EightBit computation in its own function (fold for the cube index, mean by multiplication),
+# ---- `nearest` as a linear scan, level codes by if-chain, enumerate() loop with a debug_assert!
+MUTANTS += [
+    {"id": 'C20-benign-eightbit-own-function', "prop": "C20", "benign": True, "edits": [('src/encoder.rs', '            let color = LinColor::from(color);\n            let [r, g, b, _]: [f32; 4] = color.into();\n\n            // color in the color cube\n            let c_red = nearest(r, CUBE);\n            let c_green = nearest(g, CUBE);\n            let c_blue = nearest(b, CUBE);\n            let c_color = LinColor::new(CUBE[c_red], CUBE[c_green], CUBE[c_blue], 1.0);\n\n            // nearest grey color\n            let g_index = nearest((r + g + b) / 3.0, GREYS);\n            let g_color = LinColor::new(GREYS[g_index], GREYS[g_index], GREYS[g_index], 1.0);\n\n            // pick grey or cube based on the distance\n            let index = if color.distance(g_color) < color.distance(c_color) {\n                232 + g_index\n            } else {\n                16 + 36 * c_red + 6 * c_green + c_blue\n            };\n', '            let index = palette_index(LinColor::from(color));\n'), ('src/encoder.rs', '/// Encode color as SGR sequence\n', 'fn palette_index(color: LinColor) -> usize {\n    let [r, g, b, _]: [f32; 4] = color.into();\n    let cube = [r, g, b].map(|c| nearest(c, CUBE));\n    let c_color = LinColor::new(CUBE[cube[0]], CUBE[cube[1]], CUBE[cube[2]], 1.0);\n    let grey = nearest((r + g + b) * (1.0 / 3.0), GREYS);\n    let g_color = LinColor::new(GREYS[grey], GREYS[grey], GREYS[grey], 1.0);\n    if color.distance(c_color) <= color.distance(g_color) {\n        cube.iter().fold(0, |acc, c| acc * 6 + c) + 16\n    } else {\n        grey + 232\n    }\n}\n\n/// Encode color as SGR sequence\n')]},
+    {"id": 'C20-benign-nearest-linear-scan', "prop": "C20", "benign": True, "edits": [('src/encoder.rs', '    match vs.binary_search_by(|c| c.partial_cmp(&v).unwrap()) {\n        Ok(index) => index,\n        Err(index) => {\n            if index == 0 {\n                0\n            } else if index >= vs.len() {\n                vs.len() - 1\n            } else if (v - vs[index - 1]) < (vs[index] - v) {\n                index - 1\n            } else {\n                index\n            }\n        }\n    }\n', '    assert!(!v.is_nan());\n    let mut best = 0;\n    for (index, entry) in vs.iter().enumerate() {\n        if (entry - v).abs() <= (vs[best] - v).abs() {\n            best = index;\n        }\n    }\n    best\n')]},
+    {"id": 'C20-benign-gray-level-if-chain', "prop": "C20", "benign": True, "edits": [('src/encoder.rs', '            let index = match nearest(luma, &[0.0, 0.33, 0.66, 1.0]) {\n                0 => 30,\n                1 => 90,\n                2 => 37,\n                _ => 97,\n            };\n', '            let level = nearest(luma, &[0.0, 0.33, 0.66, 1.0]);\n            let index = if level == 0 {\n                30\n            } else if level == 1 {\n                90\n            } else if level == 2 {\n                37\n            } else {\n                97\n            };\n')]},
+    {"id": 'C20-benign-truecolor-enumerate-loop', "prop": "C20", "benign": True, "edits": [('src/encoder.rs', '            for c in [r, g, b] {\n                write!(chunks, "{}", c)?;\n                chunks.mark();\n            }\n', '            for (position, c) in [r, g, b].iter().enumerate() {\n                debug_assert!(position < 3);\n                write!(chunks, "{}", *c)?;\n                chunks.mark();\n            }\n')]},
 ]
